@@ -1,4 +1,5 @@
 mod bodysim;
+mod gate;
 mod net;
 mod sched;
 mod seams;
